@@ -54,6 +54,16 @@ class XmlConfigFormat(ConfigFormat):
         :param value: the field valid
         :returns: the element containing the XML encoded key/value pair
         """
+        if isinstance(key, str):
+            # ElementTree does not check tag names: a key such as "a>b" would be written as markup
+            # and read back as something else
+            try:
+                is_name = ET.fromstring("<%s/>" % key).tag == key
+            except ET.ParseError:
+                is_name = False
+            if not is_name:
+                raise ValueError("%r cannot be written as an XML element name" % key)
+
         ele = ET.Element(key)
         if isinstance(value, str):
             ele.attrib["type"] = "str"
